@@ -312,6 +312,9 @@ func (a *NXActionConnTrack) UnmarshalBinary(data []byte) error {
 		if err != nil {
 			return errors.New("failed to decode actions")
 		}
+		if act.Len() == 0 {
+			return errors.New("decoded an action of length 0")
+		}
 		a.actions = append(a.actions, act)
 		n += int(act.Len())
 	}
